@@ -11,6 +11,15 @@ Pool == [ same    |-> Init0,
           other   |-> [r |-> "r0", o |-> "o1"],     \* bind changed
           otherA  |-> [r |-> "rA", o |-> "o1"],     \* bind and routes changed
           liteoff |-> [r |-> "r0", o |-> "o2"],     \* lite.enabled switched off
+          \* a difference in each section outside the Java config, alone and with a route change
+          noreload  |-> [r |-> "r0", o |-> "o3"],   \* root-level noAutoReload flipped
+          noreloadA |-> [r |-> "rA", o |-> "o3"],
+          health    |-> [r |-> "r0", o |-> "o4"],   \* healthService bind changed
+          healthA   |-> [r |-> "rA", o |-> "o4"],
+          connect   |-> [r |-> "r0", o |-> "o5"],   \* connect endpoint name set
+          connectA  |-> [r |-> "rA", o |-> "o5"],
+          api       |-> [r |-> "r0", o |-> "o6"],   \* api bind changed
+          apiA      |-> [r |-> "rA", o |-> "o6"],
           none    |-> [r |-> "nil", o |-> "nil"] ]  \* nil candidate
 Valid(c) == c.r \notin {"rBad", "nil"}
 \* the only live-safe difference: Lite routes
